@@ -110,6 +110,18 @@ def check_props(pid):
                 ok=ok, log=log, secs=time.time() - t0)
 
 
+def run_coqchk(pid):
+    """Independent re-check of the compiled theorem file and everything it depends on."""
+    t0 = time.time()
+    rc, out = sh(["timeout", "5400", "coqchk", "-silent", "-o", "-Q", ".", "Ztyp", "Ztyp.Props." + pid],
+                 cwd=COQ, timeout=5500)
+    axioms = []
+    m = re.search(r"\* Axioms:(.*?)\n\s*\n\* ", out, re.S)
+    if m:
+        axioms = [l.strip() for l in m.group(1).splitlines() if l.strip() and l.strip() != "<none>"]
+    return dict(ok=(rc == 0), axioms=axioms, secs=round(time.time() - t0, 1), tail=out[-600:])
+
+
 def build_driver():
     rc, out = sh("timeout 900 ./build.sh", cwd=OCAML, timeout=1000)
     if rc != 0:
@@ -189,6 +201,7 @@ def main():
         seed, tier = rp.get("seed", seed), rp.get("tier", tier)
     t0 = time.time()
     rule = props_rules.RULES[pid]
+    chk = None
     violations = []      # (kind, message, replay dict)
     known_lines = []
     cov = {}
@@ -199,12 +212,13 @@ def main():
             pr = dict(theorems=[], discharged=0, axioms=[], ok=True, log="", secs=0.0)
         else:
             pr = check_props(pid)
+        chk = run_coqchk(pid) if (tier == "thorough" and pr["ok"] and pr["theorems"]) else None
         build_driver()
         rc, hout = run_harness(pid, tier, seed, race=rule.get("race", False) and True)
         if rc != 0:
             if rule.get("race") and "DATA RACE" in hout:
                 violations.append(("race", "the race detector reported conflicting accesses",
-                                   dict(kind="race", log=hout[-6000:])))
+                                   dict(kind="race", failing_input=True, log=hout[-6000:], note="go test -race report; rerun with the recorded seed and tier")))
             else:
                 raise Fail("harness failed (exit %d):\n%s" % (rc, hout[-4000:]))
         run_driver(pid)
@@ -215,11 +229,22 @@ def main():
             raise Fail("harness generated 0 cases")
         known = [k for k in load_known() if k["property"] == pid and k["status"] == "known"]
         res = props_rules.compare(pid, rule, order, ins, obs, mod, known)
+        if replay and rp.get("case"):
+            hit = [v for v in res["violations"] if v[2].get("case") == rp["case"]]
+            print("REPLAY case %s: %s" % (rp["case"], "still fails" if hit else "no longer fails"))
+            if rp["case"] in obs:
+                print("  input:          " + ins.get(rp["case"], "")[:800])
+                print("  implementation: " + obs[rp["case"]][:800])
+                print("  model:          " + mod.get(rp["case"], "")[:800])
+            res["violations"] = hit
         cov = res["coverage"]
         for kf in res["known_hits"]:
             known_lines.append(kf)
         for v in res["violations"]:
             violations.append(v)
+        if chk is not None and not chk["ok"]:
+            violations.append(("proof", "coqchk rejected Props/%s.vo: %s" % (pid, chk["tail"]),
+                               dict(kind="proof-obligation", theorem_file="coq/Props/%s.v" % pid, log=chk["tail"])))
         if not pr["ok"]:
             violations.append(("proof", "theorem file Props/%s.v no longer checks: %s" % (pid, pr["log"][-1500:]),
                                dict(kind="proof-obligation", theorem_file="coq/Props/%s.v" % pid, log=pr["log"][-3000:])))
@@ -243,6 +268,8 @@ def main():
         trusted_base=trusted,
         coqc_seconds=round(pr["secs"], 2),
     ))
+    if chk is not None:
+        cov["coqchk"] = dict(ok=chk["ok"], seconds=chk["secs"], axioms=chk["axioms"] or ["<none>"])
     nviol = 0
     for kind, msg, rp in violations:
         nviol += 1
